@@ -79,13 +79,93 @@ def run_c07_history(ctx, r, evs):
     return evs2, tokens, steps, obs, final_seq, sent_flags
 
 
+def tie_scenarios(ctx):
+    """Coincidences the event-at-a-time histories never produce: the matching acknowledgement is read in the very loop
+    iteration in which the sender's wait expires, or in which the sender is cancelled.  Whatever the outcome for that
+    sender, the link must be in order afterwards: of two further senders the second is written only after the first has
+    been acknowledged (implementation-side observation; the model takes events one at a time)."""
+    import streams
+    import vloop
+    r = ctx.rng
+    for variant in ("ack-at-expiry", "ack-then-cancel", "cancel-then-ack", "ack-at-expiry-queued"):
+        for rep in range(ctx.scale(3, 20)):
+            w = vloop.LinkWorld()
+            try:
+                fa, _, _ = c08.make_frame(r, 1)
+                fb, _, _ = c08.make_frame(r, 2)
+                fc, _, _ = c08.make_frame(r, 3)
+                pre = r.randrange(0, 3)
+                cur = 0
+                for _ in range(pre):                      # some ordinary traffic first
+                    f0, _, _ = c08.make_frame(r, 9)
+                    w.start_send(90 + _, f0); w.rx(streams.ack(cur)); cur = cur % 3 + 1
+                w.start_send(1, fa)
+                if variant == "ack-at-expiry-queued":
+                    w.start_send(2, fb)
+                if variant.startswith("ack-at-expiry"):
+                    t = w.loop.next_timer()
+                    if t is not None:
+                        w.loop._vt = max(w.loop._vt, t)   # the clock stands at the deadline, nothing has run yet
+                    w.p.data_received(streams.ack(cur))
+                elif variant == "ack-then-cancel":
+                    w.p.data_received(streams.ack(cur)); w.tasks[1].cancel()
+                else:
+                    w.tasks[1].cancel(); w.p.data_received(streams.ack(cur))
+                w.loop.settle()
+                m = w.mark()
+                if variant != "ack-at-expiry-queued":
+                    w.start_send(2, fb)
+                w.start_send(3, fc)
+                first = [bytes.fromhex(e[1:])[13] for e in w.since(m) if e.startswith("W") and not bytes.fromhex(e[1:])[5] & 1]
+                if variant == "ack-at-expiry-queued":
+                    first = [bytes.fromhex(e[1:])[13] for e in w.log if e.startswith("W") and not bytes.fromhex(e[1:])[5] & 1 and bytes.fromhex(e[1:])[13] in (2, 3)]
+                done3 = w.tasks[3].done()
+                inp = dict(variant=variant, earlier_frames=pre)
+                ctx.case(("tie", variant, rep, pre), nontrivial=True, sample=dict(inp, written_after=first, third_returned=done3))
+                ctx.count("tie:" + variant)
+                if 3 in first or done3:
+                    ctx.counterexample("not-stop-and-wait-after-coincidence", inp, "sender 3 waits for sender 2's acknowledgement",
+                                       dict(written=first, sender_3_returned=done3),
+                                       "after an acknowledgement coincided with the expiry / cancellation of its wait, a frame is written "
+                                       "(or a sender returns) while the previous frame is unacknowledged")
+                    continue
+                # sender 2's acknowledgement lets sender 3 go
+                seq2 = None
+                for e in w.log:
+                    if e.startswith("W"):
+                        raw = bytes.fromhex(e[1:])
+                        if not raw[5] & 1 and raw[13] == 2:
+                            seq2 = (raw[5] >> 2) & 3
+                if seq2 is not None:
+                    m = w.mark()
+                    w.rx(streams.ack(seq2))
+                    got3 = [1 for e in w.since(m) if e.startswith("W") and not bytes.fromhex(e[1:])[5] & 1 and bytes.fromhex(e[1:])[13] == 3]
+                    if not got3:
+                        ctx.counterexample("sender-starved-after-coincidence", inp, "sender 3 written after sender 2's ACK", w.since(m)[:4],
+                                           "after the coincidence a queued sender is not written when its predecessor is acknowledged")
+            finally:
+                w.shutdown()
+
+
 def run(ctx):
+    tie_scenarios(ctx)
     import streams
     r = ctx.rng
     ctx.rule = ("histories of 1..4 concurrently pending senders over {send, matching ACK, ACK with each other value, "
                 "duplicate ACK, unrelated data frame, expiry, cancellation of a random sender}, depth 30 + drain; "
                 "thorough adds every history of depth <= 6 over 3 senders; non-trivial = >= 2 sends and >= 3 event kinds")
     hs = [c08.gen_history(r, 30, KINDS) for _ in range(ctx.scale(200, 800))]
+    # long histories: many rounds of "one frame in flight, a second sender queued and cancelled (or timing out), the
+    # acknowledgement", then plain traffic - whatever each round leaves behind must not add up
+    for rounds in (40, 70):
+        h, n = [], 0
+        for k in range(rounds):
+            n += 1; h.append(("send", n))
+            n += 1; h.append(("send", n)); h.append(("cancel", n))
+            h.append(("ack", None) if k % 5 else ("tick", None))
+        for _ in range(4):
+            n += 1; h.append(("send", n)); h.append(("ack", None))
+        hs.append(h)
     if ctx.thorough():
         alpha = [("send", None), ("ack", None), ("ackn", 3), ("data", 2), ("tick", None), ("cancel", 1), ("cancel", 2)]
         for h in c08.all_histories(6, alpha):
